@@ -10,8 +10,8 @@ Impl model of `compiler/front_end/lr1.py` — the table-driven part.
                                      `defaultdict(dict)`s (`Grammar.parser()`): `self.action[state()]`
                                      in the Error branch raises `KeyError` for the former when the
                                      state has no row.
-* `step`, `run`                    — the loop of `Parser.parse`: implicit end-of-input token,
-                                     default errors, "absent ⇒ Error(None)", expected set, and
+* `step`, `run`                    — the loop of `Parser.parse`: implicit end-of-input token
+                                     (a client token with symbol `$` has no action), default errors, "absent ⇒ Error(None)", expected set, and
                                      every way the Python code can raise (`internal`).
 Symbols, error codes and token texts are `Nat`s (interned by the harness).
 -/
@@ -99,14 +99,18 @@ def Automaton.entry (A : Automaton) (s a : Nat) : Option Action :=
 def Automaton.gotoOf (A : Automaton) (s x : Nat) : Option Nat :=
   ((A.goto[s]?).getD []).lookup x
 
+/-- The action taken when the symbol has no entry in the row of `s`: the state's default
+error code, or `Error(None)`. -/
+def Automaton.defaultAction (A : Automaton) (s : Nat) : Action :=
+  match A.defaultErrors.lookup s with
+  | some c => .error (some c)
+  | none => .error none
+
 /-- The action `parse` takes in state `s` on symbol `a` (first `if` of the loop). -/
 def Automaton.actionOf (A : Automaton) (s a : Nat) : Action :=
   match A.entry s a with
   | some x => x
-  | none =>
-    match A.defaultErrors.lookup s with
-    | some c => .error (some c)
-    | none => .error none
+  | none => A.defaultAction s
 
 /-- Keys of a row whose action is not an `Error` (`expected_tokens`). -/
 def expectedOfRow (r : Row) : List Nat :=
@@ -134,16 +138,28 @@ inductive StepOut where
   | done (r : Result)
 deriving DecidableEq
 
-/-- Symbol of `tokens[cursor]` after `tokens.append(Token("$", ...))`. -/
+/-- `tokens[cursor].symbol` after `tokens.append(Token("$", ...))`. -/
 def lookahead (A : Automaton) (w : List Token) (i : Nat) : Nat :=
   match w[i]? with
   | some t => t.sym
   | none => A.eoi
 
+/-- `symbol == END_OF_INPUT and cursor != len(tokens) - 1`: a *client* token that uses the
+end-of-input marker as its symbol.  `parse` then looks up `None`, which has no table entry
+(fix 935ff56). -/
+def clientEoi (A : Automaton) (w : List Token) (i : Nat) : Bool :=
+  match w[i]? with
+  | some t => t.sym == A.eoi
+  | none => false
+
+/-- The action `parse` takes with `s` on top of the stack and the cursor at `i`. -/
+def nextAction (A : Automaton) (w : List Token) (s i : Nat) : Action :=
+  if clientEoi A w i then A.defaultAction s else A.actionOf s (lookahead A w i)
+
 def step (A : Automaton) (w : List Token) (c : Config) : StepOut :=
   let s := topState c.stack
   let a := lookahead A w c.cursor
-  match A.actionOf s a with
+  match nextAction A w s c.cursor with
   | .shift s' =>
     match w[c.cursor]? with
     | some t => .next ⟨(s', .leaf t) :: c.stack, c.cursor + 1⟩
